@@ -39,6 +39,12 @@ pub enum WOp {
     /// an acknowledgement that reports more free slots than the client knows of (the tower handed slots back, or two
     /// acknowledgements are processed out of order)
     ReceiptMoreSlots(u8, u8),
+    /// the same notification acknowledged again, this time with another balance (the tower had forgotten the appointment
+    /// and took it as a new one): the receipt on record stays, and what is shown stays what is stored
+    RepeatReceiptOtherBalance(u8, u8),
+    /// the answer to a delivery arrives for a tower that does not hold the commitment as pending (any more): it was
+    /// abandoned and registered again meanwhile. Whatever another tower holds for that commitment stays.
+    LateRemovePending(u8, u8),
 }
 
 fn tower_id(t: u8) -> TowerId {
@@ -193,6 +199,10 @@ impl WWorld {
                         let has_receipt = rt_.receipts.contains_key(&l);
                         let pending = rt_.pending.contains(&l);
                         let invalid = rt_.invalid.contains(&l);
+                        let held_by_another = self.reference.towers.iter().any(|(t2, o)| *t2 != t && (o.pending.contains(&l) || o.invalid.contains(&l)));
+                        if !pending && held_by_another {
+                            v.push(WOp::LateRemovePending(t, l));
+                        }
                         if !has_receipt && !pending && !invalid && rt_.proof.is_none() {
                             v.push(WOp::Receipt(t, l));
                             v.push(WOp::ReceiptMoreSlots(t, l));
@@ -202,6 +212,7 @@ impl WWorld {
                         }
                         if has_receipt && rt_.proof.is_none() {
                             v.push(WOp::RepeatReceipt(t, l));
+                            v.push(WOp::RepeatReceiptOtherBalance(t, l));
                             if !pending && !invalid {
                                 // a repeated notification answered with a wrong signature this time
                                 v.push(WOp::Misbehaving(t, l));
@@ -316,6 +327,11 @@ impl WWorld {
                 let slots = self.reference.towers[t].slots;
                 c.add_appointment_receipt(tower_id(*t), locator(*l), slots, &receipt(*t, *l));
             }
+            WOp::RepeatReceiptOtherBalance(t, l) => {
+                let slots = self.reference.towers[t].slots;
+                c.add_appointment_receipt(tower_id(*t), locator(*l), slots.saturating_sub(1), &receipt(*t, *l));
+            }
+            WOp::LateRemovePending(t, l) => c.remove_pending_appointment(tower_id(*t), locator(*l)),
             WOp::RepeatPending(t, l) => c.add_pending_appointment(tower_id(*t), &appointment(*l)),
             WOp::RepeatInvalid(t, l) => c.add_invalid_appointment(tower_id(*t), &appointment(*l)),
             WOp::Abandon(t) => {
